@@ -306,3 +306,35 @@ Theorem solve_squeezed_refuted :
   check (cstrs_of_adj ex_squeezed_F 6%nat 7%nat) (posof (st_pos (solve ex_squeezed_F ex_squeezed_R ex_squeezed_gn 6%nat 7%nat))) = false.
 Proof. split; vm_compute; reflexivity. Qed.
 
+(* corpus_graph_offpath: R1 1 2; right=0.75 / C1 2 3; right=0.5 / R2 3 4; right=0.5 / L1 1 3; right=2 / W1 1 4; right=3   (x graph; gnodes 0=1, 1=2, 2=3, 3=4, 4=start, 5=end)
+   gnodes 0 and 3 are on the critical path (W1).  assign_stretchy1 processes gnode 1 first: the walked path
+   (path_to_closest_known backwards and forwards from gnode 1) is 0 -> 1 -> 2 -> 3, the stretch is computed for
+   longest_path(0, 3) = the single edge W1 (stretch 0), and gnode 2 is positioned as a passer-by of that walk at
+   3/4 + 1/2 = 5/4 although its own edge L1 from the placed gnode 0 needs 2. *)
+Definition ex_offpath_F : adj :=
+  [(0%nat, [mkS 1%nat (3 # 4) true; mkS 2%nat (2 # 1) true; mkS 3%nat (3 # 1) true]);
+   (1%nat, [mkS 2%nat (1 # 2) true]);
+   (2%nat, [mkS 3%nat (1 # 2) true]);
+   (3%nat, [mkS 5%nat (0 # 1) true]);
+   (4%nat, [mkS 0%nat (0 # 1) true]);
+   (5%nat, [])].
+Definition ex_offpath_R : adj :=
+  [(0%nat, [mkS 4%nat (0 # 1) true]);
+   (1%nat, [mkS 0%nat (3 # 4) true]);
+   (2%nat, [mkS 1%nat (1 # 2) true; mkS 0%nat (2 # 1) true]);
+   (3%nat, [mkS 2%nat (1 # 2) true; mkS 0%nat (3 # 1) true]);
+   (4%nat, []);
+   (5%nat, [mkS 3%nat (0 # 1) true])].
+Definition ex_offpath_gn : list node := [0%nat; 1%nat; 2%nat; 3%nat; 4%nat; 5%nat].
+Definition ex_offpath_wit : posmap := [(0%nat, (0 # 1)); (1%nat, (1 # 1)); (2%nat, (2 # 1)); (3%nat, (3 # 1))].
+Theorem solve_offpath_refuted :
+  check (cstrs_of_adj ex_offpath_F 4%nat 5%nat) (posof ex_offpath_wit) = true /\
+  check (cstrs_of_adj ex_offpath_F 4%nat 5%nat) (posof (st_pos (solve ex_offpath_F ex_offpath_R ex_offpath_gn 4%nat 5%nat))) = false.
+Proof. split; vm_compute; reflexivity. Qed.
+(* where the rules put gnode 2, and the order dependence: the same graph with gnode 2 ahead of gnode 1 in the
+   work list is placed feasibly (gnode 2 is then the processed gnode and path_to_closest_known walks its edge L1) *)
+Theorem solve_offpath_position :
+  Qeq_bool (posof (st_pos (solve ex_offpath_F ex_offpath_R ex_offpath_gn 4%nat 5%nat)) 2%nat) (5 # 4) = true /\
+  check (cstrs_of_adj ex_offpath_F 4%nat 5%nat)
+        (posof (st_pos (solve ex_offpath_F ex_offpath_R [0%nat; 2%nat; 1%nat; 3%nat; 4%nat; 5%nat] 4%nat 5%nat))) = true.
+Proof. split; vm_compute; reflexivity. Qed.
